@@ -1,13 +1,22 @@
 """R-rew: drive the real reward layer and the Lean model (Drivers/C10.lean) with the same inputs and diff every answer.
 
-Three families of cases:
+Families of cases:
   * `game`  — a generated agent set goes through the real `PrimaiteGame.from_config` (accept / reject, evaluation order),
               then steps: real `AgentHistoryItem`s are appended with the real `process_action_response`, the real
-              `advance_timestep` and `update_agents(state)` run on a synthetic post-step state dictionary; after every step
-              each agent's `current_reward`, `total_reward`, history length and component memories are compared;
+              `advance_timestep` and `update_agents(state)` run on a synthetic post-step state DICTIONARY (well-formed leaves,
+              and leaves of the wrong shape on which `calculate` raises); after every step each agent's `current_reward`,
+              `total_reward`, history length and component memories are compared; optional mid-run resets (a fresh game from
+              the same configuration + the second `update_agents` of `PrimaiteGymEnv.reset`); at the end the components'
+              `location_in_state` and read-sets;
   * `graph` — `graph_has_cycle` / `topological_sort` called directly on raw graphs (lists with repeats, dangling names);
-  * `env`   — (see `env_case`) the real `PrimaiteGymEnv.step` pipeline on a shipped configuration; the model is fed what the
-              components read from the real `describe_state()` and the agents' real history items.
+  * `access`— `access_from_nested_dict` on a state dictionary (synthetic, or a whole real `describe_state()`) and key paths; the
+              projection of the state on a path set (`restrict`) and the fingerprint of the serialisation;
+  * `env`   — the real `PrimaiteGymEnv.step` / `PrimaiteGame.step` pipeline on shipped and generated scenarios, with
+              `PrimaiteGymEnv.reset` between episodes; the model is given the real `describe_state()` dictionary projected on the
+              `location_in_state` paths the REAL components computed (the model computes its own paths; `access` on the projection
+              equals `access` on the whole state for those paths: Lemmas/RewardState.lean) and the agents' real history items.
+
+The model does the look-ups itself (`access_from_nested_dict` is part of the model); nothing in this file extracts leaves.
 
 The neighbour sets of the sharing graph are Python `set`s of strings; their iteration order is captured from the very
 objects the code passes to `graph_has_cycle` (in-process wrapper) and handed to the model (`setorder`).
@@ -15,13 +24,17 @@ Values are compared as exact `Fraction(float)` in the dyadic families (weights k
 float arithmetic is exact there). In the decimal families (`case["exact"] == False`: weights such as 0.4 / 0.05, code lists
 of any length, shipped scenarios with their own weights) the model is given the exact rational value of every double the
 code holds, computes in exact arithmetic, and the implementation's floats must lie within a forward rounding-error bound
-that `StepCheck` accumulates from the values the real components returned (unit round-off 2^-53 per operation).
+that `StepCheck` accumulates from the values the real components returned (unit round-off 2^-53 per operation; the
+per-sum factor (1+u)^(n+1) - 1 is the one proved in Lemmas/RewardRounding.lean).
 
 `StepCheck` is also the property's own oracle on the implementation (independent of Lean): with `calculate` of every
 registered component class tapped in-process, after every step it checks that each shared-reward component returned the
 other agent's reward OF THIS STEP, that `current_reward` is the weighted sum (configured weights x returned values), that
-`total_reward` grew by exactly that, and that the newest history item carries it. The sharing graph handed to
-`graph_has_cycle` is compared with the shares the configuration declares (`declared_graph`).
+`total_reward` grew by exactly that, and that the newest history item carries it. The tap also runs every `calculate` a
+second time on a COPY of the component with everything the component is proved not to read taken away or changed (the state
+reduced to the component's own leaf, the history item's other fields scrambled): the value and the memory must not change
+(non-interference, on the implementation). The sharing graph handed to `graph_has_cycle` is compared with the shares the
+configuration declares (`declared_graph`).
 """
 from __future__ import annotations
 
@@ -72,6 +85,91 @@ def tok(sv: Optional[str]) -> str:
     return "default" if sv is None else show(Fraction(dbl(sv)))
 
 
+# ------------------------------------------------------------------------------------------ words on the wire
+_SAFE = set(chr(c) for c in range(33, 127)) - set("\\,:;=/")
+
+
+def esc(s: str) -> str:
+    """A name / string as one protocol word (Drivers/C10.lean `unescape`)."""
+    if s == "":
+        return "\\e"
+    return "".join(ch if ch in _SAFE else "\\%x;" % ord(ch) for ch in s)
+
+
+def unesc(w: str) -> str:
+    import re
+    if w == "\\e":
+        return ""
+    return re.sub(r"\\([0-9a-f]+);", lambda m: chr(int(m.group(1), 16)), w)
+
+
+def pyval_words(v) -> List[str]:
+    """A Python value in the driver's prefix form (see Drivers/C10.lean)."""
+    import math
+    out: List[str] = []
+
+    def go(x):
+        if x is None:
+            out.append("N")
+        elif isinstance(x, bool):
+            out.append("T" if x else "F")
+        elif isinstance(x, int):
+            out.append("i%d" % x)
+        elif isinstance(x, float):
+            if math.isfinite(x):
+                out.append("r" + show(Fraction(x)))
+            else:
+                out.append("O" + esc(repr(x)))
+        elif isinstance(x, str):
+            out.append("s" + esc(x))
+        elif isinstance(x, (list, tuple)):
+            out.append("L%d" % len(x))
+            for y in x:
+                go(y)
+        elif isinstance(x, dict):
+            out.append("D%d" % len(x))
+            for k, y in x.items():
+                if isinstance(k, str):
+                    out.append("k" + esc(k))
+                elif isinstance(k, int):  # bool keys hash and compare as 0 / 1
+                    out.append("j%d" % int(k))
+                else:
+                    out.append("o" + esc(repr(k)))
+                go(y)
+        elif hasattr(x, "value") and isinstance(getattr(x, "value"), (int, str)) and not isinstance(x, type):
+            go(x.value)  # an Enum member that leaked into a state dictionary
+        else:
+            out.append("O" + esc(type(x).__name__))
+    go(v)
+    return out
+
+
+def fingerprint_words(words: List[str]) -> int:
+    """Drivers/C10.lean `fingerprint`: polynomial hash of the canonical word sequence."""
+    p = 2305843009213693951
+    h = 7
+    for w in words:
+        h = (h * 131 + 32) % p
+        for ch in w:
+            h = (h * 131 + ord(ch)) % p
+    return h
+
+
+def py_restrict(v, paths: List[List[str]]):
+    """Projection of a value on a set of key paths (Model/RewardState.lean `restrict`): a dict keeps the `str` keys some path
+    continues with; a path that ends here keeps the value whole; a non-dict is kept whole."""
+    if not isinstance(v, dict) or any(len(p) == 0 for p in paths):
+        return v
+    out = {}
+    for k, x in v.items():
+        if not isinstance(k, str):
+            continue
+        sub = [p[1:] for p in paths if p and p[0] == k]
+        if sub:
+            out[k] = py_restrict(x, sub)
+    return out
+
+
 # ------------------------------------------------------------------------------------------ generation
 def gen_comp(rng: Rng, kinds: List[str], decimal: bool = False) -> dict:
     k = rng.choice(kinds)
@@ -112,7 +210,13 @@ def gen_item(rng: Rng) -> dict:
     action = "do-nothing" if req == ["do-nothing"] or rng.chance(1, 8) else \
         ("node-application-execute" if "application" in req else "node-service-op")
     status = rng.choice(["success", "success", "success", "failure", "unreachable", "pending"])
-    return {"action": action, "request": req, "status": status}
+    it = {"action": action, "request": req, "status": status}
+    if rng.chance(1, 3):  # fields no component reads
+        it["parameters"] = rng.choice([{"node_name": "pc1"}, {"x": 1, "y": [1, 2]}, {}])
+        it["data"] = rng.choice([{}, {"reason": "because"}, {"ping": True, "n": 3}])
+    if rng.chance(1, 12):  # a request with elements that are not strings (never equal to a literal path)
+        it["request"] = rng.choice([req[:2] + [1] + req[3:], req + [{"opt": 1}], [2.5], []])
+    return it
 
 
 def gen_state(rng: Rng, prev: Optional[dict], decimal: bool = False) -> dict:
@@ -142,8 +246,47 @@ def gen_state(rng: Rng, prev: Optional[dict], decimal: bool = False) -> dict:
     return st
 
 
+FILE_LEAVES = [{}, {"health_status": 2.0}, {"health_status": True}, {"health_status": None}, {"health_status": "2"}, None, 5, "str",
+               [1, 2], {"health_status": 1, "extra": [1]}, {"health_status": 1.5}, {"health_status": False}]
+SERVICE_LEAVES = [None, 3, [], {}, {"response_codes_this_timestep": 5}, {"response_codes_this_timestep": "abc"},
+                  {"response_codes_this_timestep": {"a": 1}}, {"response_codes_this_timestep": {"__intkeys__": [[200, 1], [404, 2]]}},
+                  {"response_codes_this_timestep": [200, "404", 404.0, True]}, {"response_codes_this_timestep": True},
+                  {"response_codes_this_timestep": 0}, {"response_codes_this_timestep": ""}, {"response_codes_this_timestep": [[200]]},
+                  {"response_codes_this_timestep": [200.0, 200]}, {"response_codes_this_timestep": 2.5}, "services"]
+BROWSER_LEAVES = [{}, None, {"history": None}, {"history": {}}, {"history": "abc"}, {"history": [{}]}, {"history": [None]},
+                  {"history": [{"outcome": 200.0}]}, {"history": [{"outcome": True}]}, {"history": 5},
+                  {"history": {"__intkeys__": [[-1, {"outcome": 200}]]}}, {"history": [{"outcome": 404}, {"outcome": None}]},
+                  {"history": [[200]]}, {"history": [{"outcome": "PENDING"}, 7]}, 0, "web"]
+ON_THE_WAY = [None, 7, True, 2.5, "nodes file_system folders services applications", "zzz", ["folders", "services", "applications", "nodes"],
+              ["x"], [], {}]
+
+
+def gen_patches(rng: Rng, agents: List[dict], k: int) -> List[list]:
+    """`k` overrides `[key path, value]` of the state dictionary: leaves of unexpected shapes at the places the configured
+    components read (or anywhere), and non-dictionaries on the way to them."""
+    out = []
+    comps = [c for a in agents for c in a["comps"] if c["kind"] in ("file", "web404", "webpage")]
+    for _ in range(k):
+        c = rng.choice(comps) if comps and rng.chance(4, 5) else \
+            {"kind": rng.choice(["file", "web404", "webpage"]), "node": rng.choice(NODES), "folder": rng.choice(FOLDERS),
+             "file": rng.choice(FILES), "service": rng.choice(SERVICES)}
+        if c["kind"] == "file":
+            path, pool = ["network", "nodes", c["node"], "file_system", "folders", c["folder"], "files", c["file"]], FILE_LEAVES
+        elif c["kind"] == "web404":
+            path, pool = ["network", "nodes", c["node"], "services", c["service"]], SERVICE_LEAVES
+        else:
+            path, pool = ["network", "nodes", c["node"], "applications", "web-browser"], BROWSER_LEAVES
+        if rng.chance(1, 4):
+            cut = rng.range(1, len(path) - 1)
+            out.append([path[:cut], rng.choice(ON_THE_WAY)])
+        else:
+            out.append([path, rng.choice(pool)])
+    return out
+
+
 def gen_game_case(rng: Rng, n_agents: int, arcs: List[Tuple[int, int]], order: Optional[List[int]] = None,
-                  n_steps: int = 2, rich: bool = False, names: Optional[List[str]] = None, decimal: bool = False) -> dict:
+                  n_steps: int = 2, rich: bool = False, names: Optional[List[str]] = None, decimal: bool = False,
+                  bad_leaves: bool = False, resets: bool = False, bare_agents: bool = False) -> dict:
     """Agents a0..; `arcs` (u, v) = u shares v's reward (an arc listed twice = two shared-reward components naming the
     same agent); `order` = declaration order (permutation of indices); `decimal` = non-dyadic literals (tolerant compare)."""
     names = names or [f"a{i}" for i in range(n_agents)]
@@ -161,7 +304,12 @@ def gen_game_case(rng: Rng, n_agents: int, arcs: List[Tuple[int, int]], order: O
             others = [{"kind": "actionpenalty", "weight": rng.choice(wts[:3] if decimal else ["1", "1/2", "-1/4"]), "ap": rng.choice(pen),
                        "dn": rng.choice(pen)}]
         comps = rng.shuffle(shared + others)
-        agents.append({"ref": names[i], "comps": comps})
+        ag = {"ref": names[i], "comps": comps}
+        if bare_agents and rng.chance(1, 3):  # an agent without reward components / without a `reward_function` key at all
+            ag["comps"] = [c for c in comps if c["kind"] == "shared"] if rng.chance(1, 3) else []
+            if not ag["comps"] and rng.chance(1, 2):
+                ag["norf"] = True
+        agents.append(ag)
     if order is not None:
         agents = [agents[i] for i in order]
     steps = []
@@ -169,7 +317,12 @@ def gen_game_case(rng: Rng, n_agents: int, arcs: List[Tuple[int, int]], order: O
     for _ in range(n_steps):
         st = gen_state(rng, prev, decimal) if rich else {"files": [], "services": [], "browsers": []}
         prev = st
-        steps.append({"state": st, "items": {a["ref"]: gen_item(rng) for a in agents}})
+        if bad_leaves and rng.chance(2, 3):
+            st = dict(st, patch=gen_patches(rng, agents, rng.range(1, 3)))
+        stp = {"state": st, "items": {a["ref"]: gen_item(rng) for a in agents}}
+        if resets and rng.chance(1, 4):
+            stp["reset_after"] = True  # the episode ends here: PrimaiteGymEnv.reset's reward-relevant part, then a new episode
+        steps.append(stp)
     case = {"family": "game", "agents": agents, "steps": steps}
     if decimal:
         case["exact"] = False
@@ -201,13 +354,13 @@ def comp_line(c: dict) -> str:
     if k == "dummy":
         return f"comp {w} dummy"
     if k == "file":
-        return f"comp {w} file {c['node']} {c['folder']} {c['file']}"
+        return f"comp {w} file {esc(c['node'])} {esc(c['folder'])} {esc(c['file'])}"
     if k == "web404":
-        return f"comp {w} web404 {c['node']} {c['service']} {int(c['sticky'])}"
+        return f"comp {w} web404 {esc(c['node'])} {esc(c['service'])} {int(c['sticky'])}"
     if k in ("webpage", "greendb"):
-        return f"comp {w} {k} {c['node']} {int(c['sticky'])}"
+        return f"comp {w} {k} {esc(c['node'])} {int(c['sticky'])}"
     if k == "shared":
-        return f"comp {w} shared {c['agent']}"
+        return f"comp {w} shared {esc(c['agent'])}"
     if k == "actionpenalty":
         return f"comp {w} actionpenalty {tok(c['ap'])} {tok(c['dn'])}"
     raise ValueError(k)
@@ -218,19 +371,14 @@ def lst(xs) -> str:
     return ",".join(xs) if xs else "-"
 
 
-def state_lines(st: dict) -> List[str]:
-    out = ["state clear"]
-    for n, fo, fi, h in st["files"]:
-        out.append(f"state file {n} {fo} {fi} {h}")
-    for n, sv, codes, _form in st["services"]:
-        out.append(f"state svc {n} {sv} {lst(codes)}")
-    for n, hist in st["browsers"]:
-        out.append(f"state browser {n} {lst(hist)}")
-    return out
+def state_line(state: dict) -> str:
+    """The whole state dictionary, as the driver's `state` command."""
+    return "state " + " ".join(pyval_words(state))
 
 
-def item_line(ref: str, it: dict) -> str:
-    return f"item {ref} {it['action']} {int(it['status'] == 'success')} {lst(it['request'])}"
+def item_line(ref: str, it: dict, timestep: int = 0) -> str:
+    return " ".join(["item", esc(ref), str(timestep), esc(it["action"]), esc(it["status"])]
+                    + pyval_words(list(it["request"])) + pyval_words(it.get("parameters", {})) + pyval_words(it.get("data", {})))
 
 
 def model_lines(case: dict, capture: dict) -> List[str]:
@@ -240,27 +388,44 @@ def model_lines(case: dict, capture: dict) -> List[str]:
         g = ";".join(f"{k}:{lst(nb)}" for k, nb in case["graph"]) or "-"
         lines.append(f"graph {g}")
         return lines
+    if case["family"] == "access":
+        lines.append(state_line(decode_val(case["state"])))
+        lines.append("fingerprint")
+        for path in case["paths"]:
+            lines.append("access " + " ".join(pyval_words(list(path))))
+        lines.append("restricted " + " ".join(pyval_words([list(p) for p in case["restrict"]])))
+        return lines
     for ins, obs in capture.get("setorders", []):
-        lines.append(f"setorder {lst(ins)} {lst(obs)}")
+        lines.append(f"setorder {lst(esc(x) for x in ins)} {lst(esc(x) for x in obs)}")
     if case["family"] == "env":  # agents, states and items are what the real run produced
         case = dict(case, **capture["observed"])
     for a in case["agents"]:
-        lines.append(f"agent {a['ref']}")
+        lines.append(f"agent {esc(a['ref'])}")
         for c in a["comps"]:
             lines.append(comp_line(c))
     lines.append("load")
-    for stp in case["steps"]:
-        lines += state_lines(stp["state"])
+    for k, stp in enumerate(case["steps"]):
+        lines.append(state_line(stp["dict"] if "dict" in stp else state_dict(stp["state"])))
         for ref, it in stp["items"].items():
-            lines.append(item_line(ref, it))
+            lines.append(item_line(ref, it, it.get("timestep", k)))
         lines.append("step")
         lines.append("mem")
+        if stp.get("reset_after"):
+            lines.append("envreset")
+    lines.append("locs")
     return lines
+
+
+ANSWER_OPS = ("graph", "load", "step", "mem", "envreset", "locs", "fingerprint", "access", "restricted")
 
 
 def answer_mask(lines: List[str]) -> List[bool]:
     """Which protocol lines carry a compared answer (the rest answer `ok`)."""
-    return [l.split()[0] in ("graph", "load", "step", "mem") for l in lines]
+    return [l.split(" ", 1)[0] in ANSWER_OPS for l in lines]
+
+
+def answer_kinds(lines: List[str]) -> List[str]:
+    return [l.split(" ", 1)[0] for l in lines if l.split(" ", 1)[0] in ANSWER_OPS]
 
 
 # ------------------------------------------------------------------------------------------ implementation side
@@ -285,8 +450,9 @@ def comp_cfg(c: dict) -> dict:
 
 def game_cfg(case: dict) -> dict:
     return {"game": {"max_episode_length": 1000, "ports": [], "protocols": []},
-            "agents": [{"ref": a["ref"], "team": "BLUE", "type": "proxy-agent",
-                        "reward_function": {"reward_components": [comp_cfg(c) for c in a["comps"]]}} for a in case["agents"]],
+            "agents": [dict({"ref": a["ref"], "team": "BLUE", "type": "proxy-agent"},
+                            **({} if a.get("norf") else {"reward_function": {"reward_components": [comp_cfg(c) for c in a["comps"]]}}))
+                       for a in case["agents"]],
             "simulation": {"network": {"nodes": []}}}
 
 
@@ -298,7 +464,21 @@ def outcome_py(o: str):
     return int(o)
 
 
+def decode_val(v):
+    """JSON-storable description -> Python value: `{"__intkeys__": [[k, v], …]}` is a dict with int keys."""
+    if isinstance(v, dict):
+        if set(v) == {"__intkeys__"}:
+            return {k: decode_val(x) for k, x in v["__intkeys__"]}
+        return {k: decode_val(x) for k, x in v.items()}
+    if isinstance(v, list):
+        return [decode_val(x) for x in v]
+    return v
+
+
 def state_dict(st: dict) -> dict:
+    """The post-step state dictionary of a synthetic step: the three tables, then the `patch` overrides (key path, value)."""
+    if "raw" in st:
+        return decode_val(st["raw"])
     nodes: Dict[str, dict] = {}
     for n, fo, fi, h in st["files"]:
         nodes.setdefault(n, {}).setdefault("file_system", {}).setdefault("folders", {}).setdefault(fo, {}) \
@@ -311,12 +491,24 @@ def state_dict(st: dict) -> dict:
             d["response_codes_this_timestep"] = None
         nodes.setdefault(n, {}).setdefault("services", {})[sv] = d
     for n, hist in st["browsers"]:
-        nodes.setdefault(n, {}).setdefault("applications", {})["web-browser"] = {"history": [{"outcome": outcome_py(o)} for o in hist]}
-    return {"network": {"nodes": nodes}}
+        nodes.setdefault(n, {}).setdefault("applications", {})["web-browser"] = \
+            {"history": [{"url": "http://arcd.com/", "outcome": outcome_py(o)} for o in hist]}
+    state: Any = {"network": {"nodes": nodes}}
+    for path, val in st.get("patch", []):
+        cur = state
+        ok = True
+        for k in path[:-1]:
+            if not isinstance(cur, dict):
+                ok = False
+                break
+            cur = cur.setdefault(k, {})
+        if ok and isinstance(cur, dict):
+            cur[path[-1]] = decode_val(val)
+    return state
 
 
 def show_agents(game) -> str:
-    return ",".join(f"{k}={fl(a.reward_function.current_reward)}:{fl(a.reward_function.total_reward)}:{len(a.history)}"
+    return ",".join(f"{esc(k)}={fl(a.reward_function.current_reward)}:{fl(a.reward_function.total_reward)}:{len(a.history)}"
                     for k, a in game.agents.items())
 
 
@@ -331,7 +523,21 @@ def show_mem(game) -> str:
                 ms.append(fl(comp.reward))
             else:
                 ms.append("_")
-        out.append(f"{k}=" + ":".join(ms))
+        out.append(f"{esc(k)}=" + ":".join(ms))
+    return ",".join(out)
+
+
+def show_locs(game) -> str:
+    """`location_in_state` of every component as the REAL objects computed it in their last `calculate` (`_` = none), and the
+    read-set of the agent's own item the implementation-side recheck (CalcTap) uses for it — compared with the model's
+    `Comp.loc` / `Comp.reads`."""
+    out = []
+    for k, a in game.agents.items():
+        ls = []
+        for comp, _w in a.reward_function.reward_components:
+            loc = getattr(comp, "location_in_state", None) if type(comp).__name__ in READS_STATE else None
+            ls.append(("/".join(esc(str(x)) for x in loc) if loc is not None else "_") + "|" + READS.get(type(comp).__name__, "?"))
+        out.append(f"{esc(k)}=" + ":".join(ls))
     return ",".join(out)
 
 
@@ -357,13 +563,25 @@ class GraphTap:
         self.G.graph_has_cycle = self.orig[0]
 
 
+# what each component class is proved to read of the agent's own history item (Props/C10Calc.lean `Comp.reads`; the driver's
+# `locs` answer carries the model's version and is compared with this table): a = action, r = request, s = response.status
+READS = {"DummyReward": "", "DatabaseFileIntegrity": "", "WebServer404Penalty": "", "WebpageUnavailablePenalty": "rs",
+         "GreenAdminDatabaseUnreachablePenalty": "rs", "SharedReward": "", "ActionPenalty": "a"}
+READS_STATE = {"DatabaseFileIntegrity", "WebServer404Penalty", "WebpageUnavailablePenalty"}
+
+
 class CalcTap:
     """In-process wrapper on `calculate` of every registered reward component class: records what each component object
-    returned last (`last[id(component)]`). Removed again on exit."""
+    returned last (`last[id(component)]`), and re-runs the ORIGINAL `calculate` on a deep copy of the component (made before
+    the call) with everything the component is proved not to read removed or changed — the state reduced to the component's
+    own `location_in_state` leaf (an empty dict for a component that reads no state), the fields of the history item outside
+    its read-set scrambled. A different value, memory or exception is recorded in `leaks`. Removed again on exit."""
 
     def __enter__(self):
         from primaite.game.agent.rewards import AbstractReward
         self.last: Dict[int, Any] = {}
+        self.leaks: List[str] = []
+        self.rechecked = 0
         self.patched = []
         tap = self
         for cls in set(AbstractReward._registry.values()):
@@ -371,15 +589,59 @@ class CalcTap:
                 continue
             orig = cls.__dict__["calculate"]
 
-            def mk(orig):
+            def mk(orig, cname):
                 def calculate(self_, *a, **k):
-                    v = orig(self_, *a, **k)
+                    clone = None
+                    try:
+                        clone = self_.model_copy(deep=True)
+                    except Exception:
+                        pass
+                    try:
+                        v = orig(self_, *a, **k)
+                        exc = None
+                    except Exception as e:
+                        v, exc = None, e
                     tap.last[id(self_)] = v
+                    if clone is not None and cname in READS:
+                        tap._recheck(orig, cname, self_, clone, a, k, v, exc)
+                    if exc is not None:
+                        raise exc
                     return v
                 return calculate
-            setattr(cls, "calculate", mk(orig))
+            setattr(cls, "calculate", mk(orig, cls.__name__))
             self.patched.append((cls, orig))
         return self
+
+    def _recheck(self, orig, cname, comp, clone, a, k, v, exc):
+        from primaite.game.agent.interface import AgentHistoryItem
+        from primaite.interface.request import RequestResponse
+        state = k.get("state", a[0] if a else None)
+        item = k.get("last_action_response", a[1] if len(a) > 1 else None)
+        if item is None or not isinstance(state, dict):
+            return
+        reads = READS[cname]
+        loc = getattr(comp, "location_in_state", None) if cname in READS_STATE else None
+        small = py_restrict(state, [[str(x) for x in loc]]) if loc is not None else {}
+        other_status = "failure" if item.response.status == "success" else "success"
+        item2 = AgentHistoryItem(
+            timestep=item.timestep + 1000,
+            action=item.action if "a" in reads else "scrambled-action",
+            parameters={"scrambled": 1},
+            request=list(item.request) if "r" in reads else ["scrambled", "request"],
+            response=RequestResponse(status=item.response.status if "s" in reads else other_status, data={"scrambled": True}),
+            reward=123.5, reward_info={"scrambled": 0}, observation=None)
+        try:
+            v2 = orig(clone, state=small, last_action_response=item2)
+            exc2 = None
+        except Exception as e:
+            v2, exc2 = None, e
+        self.rechecked += 1
+        same = (type(exc) is type(exc2)) and (exc is not None or v == v2) \
+            and getattr(clone, "reward", None) == getattr(comp, "reward", None)
+        if not same and len(self.leaks) < 5:
+            self.leaks.append(f"{cname} (location {loc}): on the full state and item it gave {v!r} / {type(exc).__name__ if exc else None} "
+                              f"(memory {getattr(comp, 'reward', None)!r}); on its own leaf and the item fields [{reads}] alone it gave "
+                              f"{v2!r} / {type(exc2).__name__ if exc2 else None} (memory {getattr(clone, 'reward', None)!r})")
 
     def __exit__(self, *a):
         for cls, orig in self.patched:
@@ -403,7 +665,9 @@ U = Fraction(1, 2 ** 53)  # unit round-off of IEEE double, round to nearest
 
 
 def gamma(k: int) -> Fraction:
-    return k * U / (1 - k * U)
+    """(1+u)^k - 1: the factor of the forward error bound of a k-operation floating-point sum proved in
+    Lemmas/RewardRounding.lean (`flWeightedFold_error`, `flSum_error`)."""
+    return (1 + U) ** k - 1
 
 
 class StepCheck:
@@ -415,7 +679,7 @@ class StepCheck:
         self.tot: Dict[str, Fraction] = {r: Fraction(0) for r in self.desc}
         self.e_tot: Dict[str, Fraction] = {r: Fraction(0) for r in self.desc}
         self.e_cur: Dict[str, Fraction] = {r: Fraction(0) for r in self.desc}
-        self.bounds: List[Dict[str, Tuple[Fraction, Fraction]]] = []
+        self.bounds: Dict[int, Dict[str, Tuple[Fraction, Fraction]]] = {}  # step number -> escaped ref -> (e_cur, e_tot)
         self.problems: Dict[str, str] = {}  # kind (text before the first colon) -> first message
 
     def _bad(self, what: str):
@@ -425,6 +689,35 @@ class StepCheck:
         for ref, ag in game.agents.items():
             if ref in self.tot:
                 self.tot[ref] = Fraction(ag.reward_function.total_reward)
+                if ag.reward_function.total_reward != 0 or ag.reward_function.current_reward != 0 or len(ag.history) != 0:
+                    self._bad(f"fresh game: agent {ref} starts with total_reward {ag.reward_function.total_reward!r}, "
+                              f"current_reward {ag.reward_function.current_reward!r}, {len(ag.history)} history items")
+
+    def episode_end(self, game):
+        """Before a reset: the episode total of every agent is the sum of the step rewards of THIS episode."""
+        if game is None:
+            return
+        for ref, ag in game.agents.items():
+            rs = [Fraction(h.reward) for h in ag.history if h.reward is not None]
+            tot = sum(rs, Fraction(0))
+            slack = gamma(len(rs) + 1) * sum((abs(r) for r in rs), Fraction(0))
+            if abs(tot - Fraction(ag.reward_function.total_reward)) > slack:
+                self._bad(f"episode total: agent {ref}: total_reward {ag.reward_function.total_reward!r} at the end of the episode "
+                          f"!= sum of its {len(rs)} step rewards {float(tot)!r}")
+
+    def after_reset(self, game):
+        """After `reset`: new agents, totals restart at 0, histories are empty, sticky memories are back at their defaults."""
+        self.tot = {r: Fraction(0) for r in self.desc}
+        self.e_tot = {r: Fraction(0) for r in self.desc}
+        self.e_cur = {r: Fraction(0) for r in self.desc}
+        for ref, ag in game.agents.items():
+            rf = ag.reward_function
+            if rf.total_reward != 0 or rf.current_reward != 0 or len(ag.history) != 0:
+                self._bad(f"reset: after a reset agent {ref} has total_reward {rf.total_reward!r}, current_reward "
+                          f"{rf.current_reward!r}, {len(ag.history)} history items (a new episode starts from 0)")
+            for comp, _w in rf.reward_components:
+                if getattr(comp, "reward", 0.0) != 0.0:
+                    self._bad(f"reset: after a reset a component of {ref} still remembers {comp.reward!r}")
 
     def after_step(self, game, tap: CalcTap, step_no: int):
         import math
@@ -479,16 +772,47 @@ class StepCheck:
             h = game.agents[ref].history
             if not h or h[-1].reward != rf.current_reward:
                 self._bad(f"history: step {step_no}: newest history item of {ref} does not carry the step reward")
-            out[ref] = (e_cur[ref], self.e_tot[ref])
+            out[esc(ref)] = (e_cur[ref], self.e_tot[ref])
         self.e_cur.update(e_cur)
-        self.bounds.append(out)
+        self.bounds[step_no] = out
         tap.last.clear()
+
+
+EXC_KIND = {KeyError: "keyError", IndexError: "indexError", TypeError: "typeError", AttributeError: "attributeError"}
+
+
+def locs_answer(game) -> str:
+    """The implementation's answer to `locs` (`skip` while some component has not computed its location yet)."""
+    if game is None:
+        return "no-game"
+    for a in game.agents.values():
+        for comp, _w in a.reward_function.reward_components:
+            if getattr(comp, "location_in_state", None) == [""]:
+                return "skip"
+    return show_locs(game)
+
+
+def run_access(case: dict) -> Tuple[List[str], dict]:
+    """`access_from_nested_dict` on the state for every path; fingerprint of the state; fingerprint of its projection."""
+    from primaite.game.agent.utils import access_from_nested_dict, NOT_PRESENT_IN_STATE
+    state = decode_val(case["state"])
+    out = [str(fingerprint_words(pyval_words(state)))]
+    for path in case["paths"]:
+        try:
+            v = access_from_nested_dict(state, list(path))
+            out.append("absent" if v is NOT_PRESENT_IN_STATE else "ok " + str(fingerprint_words(pyval_words(v))))
+        except tuple(EXC_KIND) as e:
+            out.append("raised " + EXC_KIND[type(e)])
+    out.append(str(fingerprint_words(pyval_words(py_restrict(state, [list(p) for p in case["restrict"]])))))
+    return out, {}
 
 
 def run_impl(case: dict) -> Tuple[List[str], dict]:
     """Answers of the implementation for the compared lines of `model_lines`, plus the capture the model needs."""
     if case["family"] == "env":
         return run_env(case)
+    if case["family"] == "access":
+        return run_access(case)
     if case["family"] == "graph":
         from primaite.game.science import graph_has_cycle, topological_sort
         g = {k: list(nb) for k, nb in case["graph"]}
@@ -501,17 +825,22 @@ def run_impl(case: dict) -> Tuple[List[str], dict]:
     capture: Dict[str, Any] = {"setorders": []}
     game = None
     check = StepCheck(case["agents"])
-    with GraphTap() as tap, CalcTap() as ctap:
+
+    def load():
         try:
-            game = PrimaiteGame.from_config(game_cfg(case))
-            out.append("ok order=" + ",".join(game._reward_calculation_order) + " " + show_agents(game))
-            check.after_load(game)
+            g = PrimaiteGame.from_config(game_cfg(case))
+            return g, "ok order=" + ",".join(esc(x) for x in g._reward_calculation_order) + " " + show_agents(g)
         except RuntimeError as e:
-            out.append("raised cycle" if "cycle" in str(e) else f"raised other:RuntimeError")
+            return None, ("raised cycle" if "cycle" in str(e) else "raised other:RuntimeError")
         except KeyError:
-            out.append("raised keyError")
+            return None, "raised keyError"
         except Exception as e:  # anything else is reported verbatim and will not match the model
-            out.append(f"raised other:{type(e).__name__}")
+            return None, f"raised other:{type(e).__name__}"
+    with GraphTap() as tap, CalcTap() as ctap:
+        game, ans = load()
+        out.append(ans)
+        if game is not None:
+            check.after_load(game)
         if tap.graphs:
             graph = tap.graphs[0]
             capture["graph"] = {k: list(v) for k, v in graph.items()}
@@ -523,24 +852,38 @@ def run_impl(case: dict) -> Tuple[List[str], dict]:
         for k, stp in enumerate(case["steps"]):
             if game is None:
                 out += ["no-game", "no-game"]
-                continue
-            try:
-                for ref, agent in game.agents.items():
-                    it = stp["items"][ref]
-                    agent.process_action_response(timestep=game.step_counter, action=it["action"], parameters={},
-                                                  request=list(it["request"]), response=RequestResponse(status=it["status"]),
-                                                  observation=None)
-                game.advance_timestep()
-                game.update_agents(state_dict(stp["state"]))
-                out.append("ok " + show_agents(game))
-                out.append(show_mem(game))
-                check.after_step(game, ctap, k + 1)
-            except KeyError:
-                out += ["raised keyError", "no-game"]
-                game = None
-            except IndexError:
-                out += ["raised indexError", "no-game"]
-                game = None
+            else:
+                try:
+                    for ref, agent in game.agents.items():
+                        it = stp["items"][ref]
+                        agent.process_action_response(timestep=it.get("timestep", game.step_counter), action=it["action"],
+                                                      parameters=dict(it.get("parameters", {})), request=list(it["request"]),
+                                                      response=RequestResponse(status=it["status"], data=dict(it.get("data", {}))),
+                                                      observation=None)
+                    game.advance_timestep()
+                    game.update_agents(state_dict(stp["state"]))
+                    out.append("ok " + show_agents(game))
+                    out.append(show_mem(game))
+                    check.after_step(game, ctap, k + 1)
+                except tuple(EXC_KIND) as e:
+                    out += ["raised " + EXC_KIND[type(e)], "no-game"]
+                    game = None
+            if stp.get("reset_after"):
+                # what PrimaiteGymEnv.reset does to the reward layer: a fresh game from the same configuration, then update_agents
+                check.episode_end(game)
+                game, ans = load()
+                if game is not None:
+                    try:
+                        game.update_agents(state_dict(stp["state"]))
+                        ans = "ok order=" + ",".join(esc(x) for x in game._reward_calculation_order) + " " + show_agents(game)
+                        check.after_reset(game)
+                    except tuple(EXC_KIND) as e:
+                        game, ans = None, "raised " + EXC_KIND[type(e)]
+                out.append(ans)
+                ctap.last.clear()
+        out.append(locs_answer(game))
+        capture["leaks"] = list(ctap.leaks)
+        capture["rechecked"] = ctap.rechecked
     capture["game"] = game
     capture["bounds"] = check.bounds
     capture["step_problems"] = list(check.problems.values())
@@ -599,7 +942,7 @@ def oracle_all(case: dict, impl: List[str], capture: dict) -> List[str]:
             out.append(f"acyclic not loaded: acyclic sharing graph {graph} failed to load: {first}")
         else:
             order = first.split()[1][len("order="):].split(",")
-            order = [x for x in order if x]
+            order = [unesc(x) for x in order if x]
             if sorted(order) != sorted(graph):
                 out.append(f"order not a permutation: evaluation order {order} is not a permutation of the agents {list(graph)}")
             else:
@@ -609,6 +952,8 @@ def oracle_all(case: dict, impl: List[str], capture: dict) -> List[str]:
                     out.append(f"order not dependencies-first: evaluation order {order}: {u} shares from {v} (declared shares "
                                f"{graph[u]}) but is evaluated before it")
     out += capture.get("step_problems") or []
+    for leak in (capture.get("leaks") or [])[:1]:
+        out.append("component reads outside its leaf or own item: " + leak)
     game = capture.get("game")
     if game is not None:
         exact = capture["observed"].get("exact", True) if case["family"] == "env" else case.get("exact", True)
@@ -653,46 +998,54 @@ def _parse_agents(line: str) -> Optional[List[Tuple[str, List[str]]]]:
     return out
 
 
-def first_diff(case: dict, impl: List[str], model: List[str], capture: dict) -> int:
-    """Index of the first answer on which implementation and model differ, -1 if none. Exact string equality for the dyadic
-    families; for `exact == False` cases numbers may differ by the accumulated rounding bound of that step
-    (`capture["bounds"]`; memories: one rounding)."""
-    if case.get("exact", True):
-        i = next((j for j, (a, b) in enumerate(zip(impl, model)) if a != b), -1)
-    else:
-        i = -1
-        bounds = capture.get("bounds") or []
-        for j, (a, b) in enumerate(zip(impl, model)):
-            if a == b:
-                continue
-            pa, pb = _parse_agents(a), _parse_agents(b)
-            if j == 0 or pa is None or pb is None or [k for k, _ in pa] != [k for k, _ in pb]:
-                i = j
+def first_diff(case: dict, impl: List[str], model: List[str], capture: dict, kinds: Optional[List[str]] = None) -> int:
+    """Index of the first answer on which implementation and model differ, -1 if none. `kinds[j]` = the command answer j
+    belongs to. Exact string equality for the dyadic families; for `exact == False` cases the numbers of `step` / `mem`
+    answers may differ by the accumulated rounding bound of that step (`capture["bounds"][step number]`; memories: one
+    rounding). An implementation answer `skip` (a `locs` question before every component computed its location) matches."""
+    if kinds is None or len(kinds) != len(model):
+        kinds = ["?"] * len(model)
+    exact = case.get("exact", True)
+    bounds = capture.get("bounds") or {}
+    i = -1
+    step_no = 0
+    for j, (a, b) in enumerate(zip(impl, model)):
+        kd = kinds[j] if j < len(kinds) else "?"
+        if kd == "step":
+            step_no += 1
+        if a == b or (kd == "locs" and a == "skip"):
+            continue
+        if exact or kd not in ("step", "mem"):
+            i = j
+            break
+        pa, pb = _parse_agents(a), _parse_agents(b)
+        if pa is None or pb is None or [k for k, _ in pa] != [k for k, _ in pb]:
+            i = j
+            break
+        is_mem = kd == "mem"
+        bd = bounds.get(step_no, {})
+        bad = False
+        for (k, va), (_k, vb) in zip(pa, pb):
+            if len(va) != len(vb):
+                bad = True
                 break
-            step = (j - 1) // 2
-            is_mem = (j - 1) % 2 == 1
-            bad = False
-            for (k, va), (_k, vb) in zip(pa, pb):
-                if len(va) != len(vb):
+            e_cur, e_tot = bd.get(k, (Fraction(0), Fraction(0)))
+            for idx, (x, y) in enumerate(zip(va, vb)):
+                if x == y:
+                    continue
+                if x == "_" or y == "_" or (not is_mem and idx == 2):
                     bad = True
                     break
-                e_cur, e_tot = bounds[step].get(k, (Fraction(0), Fraction(0))) if step < len(bounds) else (Fraction(0), Fraction(0))
-                for idx, (x, y) in enumerate(zip(va, vb)):
-                    if x == y:
-                        continue
-                    if x == "_" or y == "_" or (not is_mem and idx == 2):
-                        bad = True
-                        break
-                    fx, fy = Fraction(x), Fraction(y)
-                    tol = U * max(abs(fx), abs(fy)) if is_mem else (e_cur if idx == 0 else e_tot)
-                    if abs(fx - fy) > tol:
-                        bad = True
-                        break
-                if bad:
+                fx, fy = Fraction(x), Fraction(y)
+                tol = U * max(abs(fx), abs(fy)) if is_mem else (e_cur if idx == 0 else e_tot)
+                if abs(fx - fy) > tol:
+                    bad = True
                     break
             if bad:
-                i = j
                 break
+        if bad:
+            i = j
+            break
     if i < 0 and len(impl) != len(model):
         i = min(len(impl), len(model))
     return i
@@ -719,8 +1072,11 @@ def gen_env_case(rng: Rng, n_steps: int, source: str = "uc2", weights: str = "dy
     scenario of the package or of the test-suite's assets), `gen:<family>:<size>` (harness/gen/scenario.py).
     `weights`: `dyadic` = every weight replaced by a random dyadic one (exact comparison), `asis` = the scenario's own
     weights, e.g. 0.4 / 0.05 / 0.34 (comparison within the rounding bound)."""
-    return {"family": "env", "seed": rng.below(1 << 30), "steps": [], "n_steps": n_steps, "agents": [], "source": source,
-            "weights": weights}
+    case = {"family": "env", "seed": rng.below(1 << 30), "steps": [], "n_steps": n_steps, "agents": [], "source": source,
+            "weights": weights, "full_state_at": sorted({1, rng.range(1, n_steps)})}
+    if rng.chance(2, 3):  # one or two resets inside the run: several episodes
+        case["reset_at"] = sorted({rng.range(2, max(2, n_steps - 1)) for _ in range(rng.range(1, 2))})
+    return case
 
 
 def _tok(x) -> str:
@@ -808,57 +1164,35 @@ def _env_cfg(case: dict):
     return cfg, agents
 
 
-def view_of_state(state: dict, agents: List[dict]) -> dict:
-    """What the configured components read from a real `describe_state()` dictionary (independent re-implementation of
-    the nested lookups)."""
-    st = {"files": [], "services": [], "browsers": []}
-    nodes = state.get("network", {}).get("nodes", {})
-    seen = set()
-    for a in agents:
-        for c in a["comps"]:
-            if c["kind"] == "file":
-                key = ("f", c["node"], c["folder"], c["file"])
-                if key in seen:
-                    continue
-                seen.add(key)
-                try:
-                    h = nodes[c["node"]]["file_system"]["folders"][c["folder"]]["files"][c["file"]]["health_status"]
-                    st["files"].append([c["node"], c["folder"], c["file"], int(h)])
-                except KeyError:
-                    pass
-            elif c["kind"] == "web404":
-                key = ("s", c["node"], c["service"])
-                if key in seen:
-                    continue
-                seen.add(key)
-                try:
-                    sv = nodes[c["node"]]["services"][c["service"]]
-                    codes = sv.get("response_codes_this_timestep") or []
-                    st["services"].append([c["node"], c["service"], [int(getattr(x, "value", x)) for x in codes], "list"])
-                except KeyError:
-                    pass
-            elif c["kind"] == "webpage":
-                key = ("b", c["node"])
-                if key in seen:
-                    continue
-                seen.add(key)
-                try:
-                    hist = nodes[c["node"]]["applications"]["web-browser"]["history"]
-                    outs = []
-                    for h in hist:
-                        o = h["outcome"]
-                        outs.append("P" if o == "PENDING" else (str(o) if isinstance(o, int) and not isinstance(o, bool) else "X"))
-                    st["browsers"].append([c["node"], outs])
-                except KeyError:
-                    pass
-    return st
-
-
 def _dyadic(sv: Optional[str]) -> bool:
     if sv is None:
         return True
     f = frac(sv)
     return f.denominator & (f.denominator - 1) == 0 and f.denominator <= 64 and abs(f.numerator) <= 1024
+
+
+def real_paths(game) -> List[List[str]]:
+    """The `location_in_state` key paths the REAL component objects computed in their latest `calculate`."""
+    out = []
+    for ag in game.agents.values():
+        for comp, _w in ag.reward_function.reward_components:
+            loc = getattr(comp, "location_in_state", None)
+            if loc is not None and loc != [""] and [str(x) for x in loc] not in out:
+                out.append([str(x) for x in loc])
+    return out
+
+
+def perturbed_paths(rng: Rng, paths: List[List[str]], state: dict) -> List[List[str]]:
+    """Key paths for the `access` differential: the components' own, their prefixes, one key changed / appended, the root."""
+    out: List[List[str]] = [[]]
+    for p in paths:
+        out.append(list(p))
+        if len(p) > 1:
+            out.append(p[:rng.range(1, len(p) - 1)])
+        out.append(p[:-1] + [p[-1] + "_x"])
+        out.append(p + [rng.choice(["health_status", "history", "response_codes_this_timestep", "zz"])])
+        out.append(p + ["history", "outcome"])
+    return out[:40]
 
 
 def run_env(case: dict) -> Tuple[List[str], dict]:
@@ -881,16 +1215,23 @@ def run_env(case: dict) -> Tuple[List[str], dict]:
     states: List[dict] = []
     orig_update = G.PrimaiteGame.update_agents
 
+    in_update = [False]
+
     def tapped(self, state):
         states.append(state)
-        return orig_update(self, state)
+        in_update[0] = True
+        r = orig_update(self, state)
+        in_update[0] = False
+        return r
     G.PrimaiteGame.update_agents = tapped
     out: List[str] = []
     steps = []
-    capture: Dict[str, Any] = {"setorders": []}
+    capture: Dict[str, Any] = {"setorders": [], "aux": []}
     check = StepCheck(agents)
     n_proxies = sum(1 for a in cfg["agents"] if a.get("type") == "proxy-agent")
     arng = Rng(case["seed"] + 17)
+    reset_at = set(case.get("reset_at", []))
+    full_at = set(case.get("full_state_at", [1]))
     try:
         with GraphTap() as tap, CalcTap() as ctap:
             env = None
@@ -904,31 +1245,69 @@ def run_env(case: dict) -> Tuple[List[str], dict]:
             for ref, ins in declared_graph(agents).items():
                 if ref in graph:
                     capture["setorders"].append((ins, list(graph[ref])))
-            out.append("ok order=" + ",".join(game._reward_calculation_order) + " " + show_agents(game))
+            out.append("ok order=" + ",".join(esc(x) for x in game._reward_calculation_order) + " " + show_agents(game))
             check.after_load(game)
             ctap.last.clear()
             if env is not None:
                 env.action_space.seed(case["seed"])
             for k in range(case["n_steps"]):
                 n_before = len(states)
-                if env is not None:
-                    _obs, rew, _term, _trunc, _info = env.step(env.action_space.sample())
-                    if Fraction(rew) != Fraction(env.agent.reward_function.current_reward):
-                        out.append("env.step returned a reward different from the agent's current_reward")
-                else:
-                    for ag in game.rl_agents.values():
-                        ag.store_action(arng.below(len(ag.action_manager.action_map)))
-                    game.step()
+                try:
+                    if env is not None:
+                        _obs, rew, _term, _trunc, _info = env.step(env.action_space.sample())
+                        if Fraction(rew) != Fraction(env.agent.reward_function.current_reward):
+                            check._bad("env.step reward: env.step returned a reward different from the agent's current_reward")
+                    else:
+                        for ag in game.rl_agents.values():
+                            ag.store_action(arng.below(len(ag.action_manager.action_map)))
+                        game.step()
+                except Exception:
+                    if in_update[0]:
+                        raise  # inside update_agents: the reward layer itself (never seen on a real state dictionary)
+                    # an exception of the simulator / an agent, outside the reward layer (C01's subject): the run ends here and
+                    # what was observed so far is compared; the traceback goes into the evidence notes
+                    import traceback
+                    capture["sim_exception"] = f"{case.get('source')} seed {case['seed']} step {k + 1}: " + traceback.format_exc()[-1500:]
+                    break
                 assert len(states) == n_before + 1, "update_agents must run exactly once per step"
                 items = {}
                 for ref, ag in game.agents.items():
                     h = ag.history[-1]
-                    items[ref] = {"action": _tok(h.action), "request": [_tok(x) for x in h.request], "status": h.response.status}
-                steps.append({"state": view_of_state(states[-1], agents), "items": items})
+                    items[ref] = {"action": str(h.action), "request": list(h.request), "status": h.response.status,
+                                  "timestep": h.timestep}
+                paths = real_paths(game)
+                stp = {"dict": py_restrict(states[-1], paths), "items": items}
+                if (k + 1) in full_at:  # the WHOLE real dictionary: serialisation, access_from_nested_dict, projection
+                    capture["aux"].append({"family": "access", "state": states[-1], "paths": perturbed_paths(arng, paths, states[-1]),
+                                           "restrict": paths, "from": f"{case.get('source')} step {k + 1}"})
                 out.append("ok " + show_agents(game))
                 out.append(show_mem(game))
                 check.after_step(game, ctap, k + 1)
+                if (k + 1) in reset_at and env is not None:
+                    # end of an episode: the environment's record of the episode total, then a new game
+                    check.episode_end(game)
+                    ep = env.episode_counter
+                    before = env.agent.reward_function.total_reward
+                    try:
+                        env.reset()
+                    except Exception:
+                        import traceback
+                        capture["sim_exception"] = f"{case.get('source')} seed {case['seed']} reset after step {k + 1}: " + traceback.format_exc()[-1500:]
+                        steps.append(stp)
+                        break
+                    if env.total_reward_per_episode.get(ep) != before:
+                        check._bad(f"episode record: total_reward_per_episode[{ep}] = {env.total_reward_per_episode.get(ep)!r} "
+                                   f"but the agent's total at the end of that episode was {before!r}")
+                    game = env.game
+                    stp["reset_after"] = True
+                    out.append("ok order=" + ",".join(esc(x) for x in game._reward_calculation_order) + " " + show_agents(game))
+                    check.after_reset(game)
+                    ctap.last.clear()
+                steps.append(stp)
+            out.append(locs_answer(game))
             capture["game"] = game
+            capture["leaks"] = list(ctap.leaks)
+            capture["rechecked"] = ctap.rechecked
             if env is not None:
                 env.close()
     finally:
@@ -937,9 +1316,16 @@ def run_env(case: dict) -> Tuple[List[str], dict]:
         PRIMAITE_PATHS.user_sessions_path = old_path
         shutil.rmtree(tmp, ignore_errors=True)
     # exact comparison is meaningful only if every number the run met is dyadic (weights, penalties, 404 averages)
+    def code_lists(d):
+        if isinstance(d, dict):
+            for k2, v in d.items():
+                if k2 == "response_codes_this_timestep" and isinstance(v, list):
+                    yield v
+                else:
+                    yield from code_lists(v)
     exact = case.get("weights", "dyadic") == "dyadic" \
         and all(_dyadic(c.get(f)) for a in agents for c in a["comps"] for f in ("weight", "ap", "dn") if f in c) \
-        and all(len(sv[2]) in (0, 1, 2, 4, 8, 16, 32) for st in steps for sv in st["state"]["services"])
+        and all(len(cl) in (0, 1, 2, 4, 8, 16, 32) for st in steps for cl in code_lists(st["dict"]))
     capture["observed"] = {"agents": agents, "steps": steps, "exact": exact}
     capture["bounds"] = check.bounds
     capture["step_problems"] = list(check.problems.values())
